@@ -319,6 +319,12 @@ func builtinStringSplit(call FunctionCall) Value {
 		limit = int(toUint32(limitValue))
 	}
 
+	// ToString(separator) precedes the limit test (15.5.4.14 steps 8-9).
+	separator := ""
+	if !separatorValue.isRegExp() {
+		separator = separatorValue.string()
+	}
+
 	if limit == 0 {
 		return objectValue(call.runtime.newArray(0))
 	}
@@ -384,7 +390,18 @@ func builtinStringSplit(call FunctionCall) Value {
 	RETURN:
 		return objectValue(call.runtime.newArrayOf(valueArray))
 	} else {
-		separator := separatorValue.string()
+		if separator == "" {
+			// The empty separator matches at every position: one element per UTF-16 code unit.
+			units := utf16.Encode([]rune(target))
+			if limit >= 0 && limit < len(units) {
+				units = units[:limit]
+			}
+			valueArray := make([]Value, len(units))
+			for index := range units {
+				valueArray[index] = stringValue(string(utf16.Decode(units[index : index+1])))
+			}
+			return objectValue(call.runtime.newArrayOf(valueArray))
+		}
 
 		splitLimit := limit
 		excess := false
